@@ -101,6 +101,11 @@ func RunProperty(e *hx.Env, prop string, mon Monitor) *hx.Report {
 	// the per-pod key mutex: lock-exclusion probe over pairs of entry points on one pod identity
 	lp := LockProbe(e, prop)
 	lp.Fill(r)
+	// the process dies between two external calls of an op: restart + resync + monitors + the model's crashAt
+	cp := DefaultParams()
+	cp.Len = 30
+	cs := RunCrashSweep(e, prop, e.N(150, 1500), 8, cp, mon)
+	cs.Fill(r)
 	// profile 1: the default mix
 	p := DefaultParams()
 	t0 := time.Now()
